@@ -17,6 +17,9 @@ SlotsOf(ts) == [i \in 1..Len(ts) |-> SlotOf(ts[i])]
 ImpOf(s) == [syms |-> SlotsOf(s.syms), max |-> IF s.adj = -1 THEN Len(s.syms) ELSE s.adj]
 CtxOf(c, locals) == Slots([i \in 1..Len(c.imports) |-> ImpOf(c.imports[i])], SlotsOf(locals))
 
+\* the same configuration when no import is found in the catalog: each import is max_id slots without text
+CtxMissing(c) == Slots([i \in 1..Len(c.imports) |-> [syms |-> <<>>, max |-> ImpOf(c.imports[i]).max]], SlotsOf(c.locals))
+
 QueryTexts == << <<97>>, <<98>>, T_name, <<99>>, T_ion, <<122>> >>
 
 \* expectations for a table whose ID space is ctx
@@ -83,6 +86,9 @@ Verdict(o) ==
               ELSE IF ~TableOK(ctx, o.viastring) THEN "String() read back denotes another ID space"
               ELSE IF ~TableOK(ctx, o.viawriteto) THEN "WriteTo(text) read back denotes another ID space"
               ELSE IF ~TableOK(ctx, o.viabinary) THEN "the table emitted by a binary writer denotes another ID space"
+              \* held by a Reader whose catalog lacks the imports, written out and read back: placeholders keep their slots
+              ELSE IF ~TableOK(CtxMissing(c), o.viabogus) THEN "a table with missing imports, written and read back, denotes another ID space"
+              ELSE IF ~TableOK(CtxMissing(c), o.viabogusbin) THEN "a table with missing imports, emitted by a binary writer, denotes another ID space"
               ELSE "ok"]
 ASSUME ndJsonSerialize(VerdictFile, [i \in 1..Len(Obs) |-> Verdict(Obs[i])])
 =============================================================================
